@@ -41,7 +41,7 @@ except ImportError:
     html = None
 
 from spyne.protocol._base import ProtocolMixin
-from spyne.model import ModelBase, XmlAttribute, Array, Null, \
+from spyne.model import ModelBase, XmlAttribute, XmlData, Array, Null, \
     ByteArray, File, ComplexModelBase, AnyXml, AnyHtml, Unicode, String, \
     Decimal, Double, Integer, Time, DateTime, Uuid, Date, Duration, Boolean, Any
 
@@ -128,6 +128,7 @@ class InProtocolBase(ProtocolMixin):
             EnumBase: self.enum_base_from_bytes,
             ModelBase: self.model_base_from_bytes,
             XmlAttribute: self.xmlattribute_from_bytes,
+            XmlData: self.xmlattribute_from_bytes,
             ComplexModelBase: self.complex_model_base_from_bytes
         }
 
@@ -149,6 +150,7 @@ class InProtocolBase(ProtocolMixin):
         self._from_unicode_handlers[Duration] = self.duration_from_unicode
         self._from_unicode_handlers[XmlAttribute] = \
                                                  self.xmlattribute_from_unicode
+        self._from_unicode_handlers[XmlData] = self.xmlattribute_from_unicode
 
 
         self._datetime_dsmap = {
